@@ -85,6 +85,11 @@ def rule(draw, depth=2, tag_only_p=3):
     tags = draw(st.lists(tag, min_size=1 if tag_only else 0, max_size=3))
     if tag_only and not any(isinstance(t, str) and t.strip() for t in tags):
         tags = tags + ['tagonly']
+    if draw(st.integers(0, 5)) == 0:
+        # a let binding that ONLY a dynamic tag reads (not match:, not a field:)
+        lets = list(lets) + [['proj', draw(st.sampled_from([['call', 'extract', [['field', 'memo'], ['str', r'PROJ:(\w+)']]], ['call', 'extract', [['str', r'#(\d+)']]],
+                                                            ['name', 'source'], ['field', 'type'], ['call', 'lowercase', [['name', 'source']]]]))]]
+        tags = tags + [['dyn', ['var', draw(st.sampled_from(['proj', 'proj', 'Proj']))]]]
     r = {
         'name': draw(st.sampled_from(RULE_NAMES)),
         'match': match,
